@@ -182,17 +182,18 @@ func (u *URL) String() string {
 
 	// Pagination
 	if u.IsCol {
-		if num, ok := u.Params.Page["number"]; ok {
-			urlParams = append(
-				urlParams,
-				"page%5Bnumber%5D="+url.QueryEscape(fmt.Sprint(num)),
-			)
+		keys := make([]string, 0, len(u.Params.Page))
+		for key := range u.Params.Page {
+			keys = append(keys, key)
 		}
 
-		if size, ok := u.Params.Page["size"]; ok {
+		sort.Strings(keys)
+
+		for _, key := range keys {
 			urlParams = append(
 				urlParams,
-				"page%5Bsize%5D="+url.QueryEscape(fmt.Sprint(size)),
+				"page%5B"+url.QueryEscape(key)+"%5D="+
+					url.QueryEscape(fmt.Sprint(u.Params.Page[key])),
 			)
 		}
 	}
